@@ -19,6 +19,7 @@ fn wrap(flavour: &str, inner: Val, before: &Val, after: &Val) -> Val {
             Val::Rec(fields) => Val::Ctor(1, fields),
             other => other,
         },
+        "deep" => Val::Rec(vec![Val::U(5), Val::Rec(vec![before.clone(), inner, after.clone()]), Val::U(0xC0FFEE)]),
         _ => Val::Rec(vec![before.clone(), inner, after.clone()]),
     }
 }
@@ -88,7 +89,7 @@ pub fn gen_case(ctx: &Ctx, p: &Pair, tag: u64, idx: u64) -> Case {
     let inner = gen_val(&wty, &mut rng, &ctx.gen);
     let (before, after) = match p.flavour {
         "sibling" => (gen_val(&Ty::U32, &mut rng, &ctx.gen), gen_val(&Ty::Str, &mut rng, &ctx.gen)),
-        "nested" => (gen_val(&Ty::U16, &mut rng, &ctx.gen), gen_val(&Ty::Bytes, &mut rng, &ctx.gen)),
+        "nested" | "deep" => (gen_val(&Ty::U16, &mut rng, &ctx.gen), gen_val(&Ty::Bytes, &mut rng, &ctx.gen)),
         _ => (Val::Unit, Val::Unit),
     };
     let written = wrap(p.flavour, inner.clone(), &before, &after);
